@@ -303,3 +303,8 @@ MUTANTS = [
     ("hash: category dropped when picking the default record", "passlib/context.py", "        record = self._get_record(scheme, category)\n        strip_unused = self._strip_unused_context_kwds\n        if strip_unused:\n            strip_unused(kwds, record)\n        return record.hash(secret, **kwds)", "        record = self._get_record(scheme, None)\n        strip_unused = self._strip_unused_context_kwds\n        if strip_unused:\n            strip_unused(kwds, record)\n        return record.hash(secret, **kwds)", "refute", "CryptContext.hash"),
     ("_create_record: deprecated flag not stored", "passlib/context.py", "        subcls.deprecated = deprecated  # attr reserved for this purpose\n", "", "refute", "_create_record"),
 ]
+
+from contracts import bcrypt_sha256_nu as _bnu  # noqa: E402
+
+CONTRACTS.append(_bnu.contract("C04"))
+MUTANTS += _bnu.MUTANTS
